@@ -672,24 +672,31 @@ class KernCallArgList(ArgOrdering):
             :py:class:`psyclone.core.VariablesAccessInfo`
 
         '''
-        for rule in self._kern.qr_rules.values():
-            basis_name = function_space.get_basis_name(qr_var=rule.psy_name)
-            sym = self.append_array_reference(basis_name, [":", ":", ":", ":"],
-                                              ScalarType.Intrinsic.REAL)
-            self.append(sym.name, var_accesses)
-
-        if "gh_evaluator" in self._kern.eval_shapes:
-            # We are dealing with an evaluator and therefore need as many
-            # basis functions as there are target function spaces.
-            for fs_name in self._kern.eval_targets:
-                # The associated FunctionSpace object is the first item in
-                # the tuple dict entry associated with the name of the target
-                # function space
-                fspace = self._kern.eval_targets[fs_name][0]
-                basis_name = function_space.get_basis_name(on_space=fspace)
-                sym = self.append_array_reference(basis_name, [":", ":", ":"],
+        # The arrays are passed in the order in which the shapes are listed
+        # in the gh_shape metadata (as they are declared in the kernel).
+        for shape in self._kern.eval_shapes:
+            if shape in self._kern.qr_rules:
+                rule = self._kern.qr_rules[shape]
+                basis_name = function_space.get_basis_name(
+                    qr_var=rule.psy_name)
+                sym = self.append_array_reference(basis_name,
+                                                  [":", ":", ":", ":"],
                                                   ScalarType.Intrinsic.REAL)
                 self.append(sym.name, var_accesses)
+            elif shape == "gh_evaluator":
+                # We are dealing with an evaluator and therefore need as many
+                # basis functions as there are target function spaces.
+                for fs_name in self._kern.eval_targets:
+                    # The associated FunctionSpace object is the first item
+                    # in the tuple dict entry associated with the name of the
+                    # target function space
+                    fspace = self._kern.eval_targets[fs_name][0]
+                    basis_name = function_space.get_basis_name(
+                        on_space=fspace)
+                    sym = self.append_array_reference(
+                        basis_name, [":", ":", ":"],
+                        ScalarType.Intrinsic.REAL)
+                    self.append(sym.name, var_accesses)
 
     def diff_basis(self, function_space, var_accesses=None):
         '''Add differential basis information for the function space to the
@@ -705,28 +712,31 @@ class KernCallArgList(ArgOrdering):
             :py:class:`psyclone.core.VariablesAccessInfo`
 
         '''
-        for rule in self._kern.qr_rules.values():
-            diff_basis_name = function_space.get_diff_basis_name(
-                qr_var=rule.psy_name)
-            sym = self.append_array_reference(diff_basis_name,
-                                              [":", ":", ":", ":"],
-                                              ScalarType.Intrinsic.REAL)
-            self.append(sym.name, var_accesses)
-
-        if "gh_evaluator" in self._kern.eval_shapes:
-            # We are dealing with an evaluator and therefore need as many
-            # basis functions as there are target function spaces.
-            for fs_name in self._kern.eval_targets:
-                # The associated FunctionSpace object is the first item in
-                # the tuple dict entry associated with the name of the target
-                # function space
-                fspace = self._kern.eval_targets[fs_name][0]
+        # The arrays are passed in the order in which the shapes are listed
+        # in the gh_shape metadata (as they are declared in the kernel).
+        for shape in self._kern.eval_shapes:
+            if shape in self._kern.qr_rules:
+                rule = self._kern.qr_rules[shape]
                 diff_basis_name = function_space.get_diff_basis_name(
-                    on_space=fspace)
+                    qr_var=rule.psy_name)
                 sym = self.append_array_reference(diff_basis_name,
-                                                  [":", ":", ":"],
+                                                  [":", ":", ":", ":"],
                                                   ScalarType.Intrinsic.REAL)
                 self.append(sym.name, var_accesses)
+            elif shape == "gh_evaluator":
+                # We are dealing with an evaluator and therefore need as many
+                # basis functions as there are target function spaces.
+                for fs_name in self._kern.eval_targets:
+                    # The associated FunctionSpace object is the first item
+                    # in the tuple dict entry associated with the name of the
+                    # target function space
+                    fspace = self._kern.eval_targets[fs_name][0]
+                    diff_basis_name = function_space.get_diff_basis_name(
+                        on_space=fspace)
+                    sym = self.append_array_reference(
+                        diff_basis_name, [":", ":", ":"],
+                        ScalarType.Intrinsic.REAL)
+                    self.append(sym.name, var_accesses)
 
     def field_bcs_kernel(self, function_space, var_accesses=None):
         '''Implement the boundary_dofs array fix for a field. If supplied it
